@@ -140,11 +140,41 @@ func (g *c10gen) cond(depth int, bounds *[]*big.Int) c10pred {
 
 func bigOfTime(t time.Time) *big.Int { return bigNanos(t) }
 
+// c10Scribble: what ConditionExpr returned is the caller's to change; overwriting every literal in it must not reach
+// any later split (nothing handed out is shared with a later result)
+func c10Scribble(e influxql.Expr) {
+	if e == nil {
+		return
+	}
+	safely(func() {
+		influxql.WalkFunc(e, func(n influxql.Node) {
+			switch x := n.(type) {
+			case *influxql.BooleanLiteral:
+				x.Val = !x.Val
+			case *influxql.StringLiteral:
+				x.Val = "scribbled"
+			case *influxql.IntegerLiteral:
+				x.Val = -12345
+			case *influxql.VarRef:
+				x.Val = "scribbled_" + x.Val
+			}
+		})
+	})
+}
+
 func c10One(o *out, p c10pred, bounds []*big.Int, tag string) {
 	cond, err := influxql.ParseExpr(p.text)
 	if err != nil {
 		return
 	}
+	defer func() {
+		// after everything has been compared: scribble over a result of this text, for the splits that follow
+		if c2, err := influxql.ParseExpr(p.text); err == nil {
+			var r influxql.Expr
+			safely(func() { r, _, _ = influxql.ConditionExpr(c2, &influxql.NowValuer{Now: c10Now}) })
+			c10Scribble(r)
+		}
+	}()
 	o.count(tag)
 	valuer := &influxql.NowValuer{Now: c10Now}
 	var resid influxql.Expr
